@@ -21,7 +21,8 @@ SPECS = {
     "computed_rep": ('<start> ::= <n> <item>{int(<n>)}\n<n> ::= "1" | "2" | "3"\n<item> ::= "x" | "y"\nwhere str(<item>) != "y"\n',
                      ["2xx", "3xyx", "1x"]),
     "quantifiers": ('<start> ::= <a>+\n<a> ::= <d> <d>\n<d> ::= "1" | "2"\n'
-                    'where forall <p> in <a>: exists <q> in <p>.<d>: str(<q>) == "1"\nwhere any(str(x) == "2" for x in *<d>)\n',
+                    'where forall <p> in <a>: exists <q> in <p>.<d>: str(<q>) == "1"\nwhere any(str(x) == "2" for x in *<d>)\n'
+                    'where all(any(str(y) > str(x) for y in *<d>) for x in *<a>)\n',
                     ["1221", "22", "11"]),
     "generator": ('def gen(a):\n    return "c" * (int(str(a)) % 2 + 1)\n<start> ::= <b> <tail>\n<b> ::= "c"+ := gen(<a>)\n<a> ::= "1" | "3" | "2"\n<tail> ::= "t" | "u"\n'
                   'where int(<a>) < 3\nwhere str(<tail>) == "t"\n',
@@ -34,10 +35,13 @@ RESOLUTIONS = 4
 _CACHE: dict = {}
 
 
-def long_lived(name):
+def long_lived(name, memo=True):
     from fandango.evolution.evaluation import Evaluator
+    from mc.fd import disable_constraint_caches
 
     spec = build(SPECS[name][0])
+    if not memo:
+        disable_constraint_caches(spec)   # the reference: brand-new constraint objects that never memoise
     ev = Evaluator(spec.grammar, spec.constraints, 1.0, 5, 1.0)
     return spec, ev
 
@@ -78,8 +82,27 @@ def observation(ev, tree):
         return ("raises", type(e).__name__)
     # failing parts as paths (a cache hit may hand back the nodes of a structurally equal tree;
     # consumers address them by path, so the path inside the node's own root is what is compared)
-    paths = sorted(str(path_of(ft.tree.get_root(), ft.tree)) for ft in failing)
-    return (round(fitness, 12), fitness >= 1.0, tuple(paths))
+    raw_paths = [path_of(ft.tree.get_root(), ft.tree) for ft in failing]
+    paths = sorted(str(p) for p in raw_paths)
+    # the verdict each long-lived constraint object gives when asked directly (check() reads .success, which a
+    # cached result must report like a fresh one)
+    checks = []
+    for c in list(ev._hard_constraints) + list(ev._repetition_bounds_constraints):
+        try:
+            checks.append(bool(c.check(tree)))
+        except Exception as e:
+            checks.append(type(e).__name__)
+    def node_at(t, path):
+        for kind, i in path or ():
+            seq = t._children if kind == "c" else t._sources
+            if i >= len(seq):
+                return None
+            t = seq[i]
+        return t
+
+    # what sits at each reported path in the tree that was evaluated (a memo may hand back nodes of another object)
+    shapes = tuple(sorted(repr(shape(n)) if n is not None else "?" for n in (node_at(tree, p) for p in raw_paths if p is not None)))
+    return (round(fitness, 12), fitness >= 1.0, tuple(paths), tuple(checks), shapes)
 
 
 def alphabet():
@@ -226,9 +249,9 @@ def step(task):
     viol = None
     for i, t in enumerate(forest):
         warm = observation(evaluator, t)
-        fspec, fev = long_lived(name)
+        fspec, fev = long_lived(name, memo=False)
         fresh = observation(fev, t)
-        if warm != fresh:
+        if warm[:4] != fresh[:4]:
             # is there an earlier evaluated tree with the same hash that differs only in what the
             # hash ignores (generator arguments kept in .sources / repetition tags)?
             twin = None
@@ -244,8 +267,10 @@ def step(task):
                     twin = "sources_and_repetition_tags"
                 if twin:
                     break
+            positions_only = (len(warm) == 5 and len(fresh) == 5 and warm[:2] == fresh[:2] and warm[3] == fresh[3] and warm[4] == fresh[4] and warm[2] != fresh[2])
             viol = {"kind": "cached_evaluation_differs_from_fresh", "spec": name, "history": [list(h) for h in hist], "op": list(e), "tree": str(t),
-                    "cached": repr(warm), "fresh": repr(fresh), "equal_hash_tree_differs_in": twin,
+                    "cached": repr(warm[:4]), "fresh": repr(fresh[:4]), "equal_hash_tree_differs_in": twin,
+                    "failing_parts_differ_only_in_position_of_equal_subtrees": positions_only,
                     "sig": f"{name}:{e[0]}:twin={twin}:cached={warm[:2]}:fresh={fresh[:2]}"}
             break
     ren2: dict = {}
